@@ -14,6 +14,7 @@ pub mod findings;
 
 pub mod cbor;
 pub mod cmodel;
+pub mod comments;
 pub mod jsonw;
 pub mod sample;
 pub mod sem;
